@@ -104,12 +104,15 @@ Section Seipd.
   Definition gate_mdc (pt : bytes) : Prop := lastn 22 pt = [211; 20] ++ sha1 (firstn (length pt - 20) pt).
   Definition gate_quick (bs : nat) (pt : bytes) : Prop := lastn 2 (firstn bs pt) = firstn 2 (skipn bs pt).
 
+  (* what is left when the MDC packet has been taken off the end *)
+  Definition unmdc (pt : bytes) : bytes := firstn (length pt - 22) pt.
+
   Lemma seipd_accept_iff alg key ct p :
     seipd_decrypt sha1 cfb_dec alg key ct = Ok p <->
-    exists pt, cfb_dec alg key ct = Some pt /\ gate_mdc pt /\ gate_quick (block_octets alg) pt /\
-               p = skipn 2 (skipn (block_octets alg) pt).
+    exists pt, cfb_dec alg key ct = Some pt /\ gate_mdc pt /\ gate_quick (block_octets alg) (unmdc pt) /\
+               p = skipn 2 (skipn (block_octets alg) (unmdc pt)).
   Proof.
-    unfold seipd_decrypt, gate_mdc, gate_quick, beqb. split.
+    unfold seipd_decrypt, gate_mdc, gate_quick, unmdc, beqb. split.
     - destruct (cfb_dec alg key ct) as [pt|]; [|discriminate].
       destruct (eqb_bytes (lastn 22 pt) _) eqn:E1; cbn [negb]; [|discriminate].
       destruct (eqb_bytes (lastn 2 _) _) eqn:E2; cbn [negb]; [|discriminate].
@@ -168,15 +171,20 @@ Section Seipd.
 
   Lemma gates_of_plain iv data : (2 <= length iv)%nat ->
     let pt := seipd_plain sha1 iv data in
-    gate_mdc pt /\ gate_quick (length iv) pt /\
-    skipn 2 (skipn (length iv) pt) = data ++ mdc_bytes (sha1 (iv ++ lastn 2 iv ++ data ++ [211; 20])).
+    gate_mdc pt /\ unmdc pt = iv ++ lastn 2 iv ++ data /\ gate_quick (length iv) (unmdc pt) /\
+    skipn 2 (skipn (length iv) (unmdc pt)) = data.
   Proof.
     intros H pt. subst pt. rewrite seipd_plain_shape.
     set (hs := iv ++ lastn 2 iv ++ data ++ [211; 20]).
     set (h := sha1 hs).
     assert (Lh : length h = 20%nat) by apply sha1_len.
     assert (L2 : length (lastn 2 iv) = 2%nat) by (rewrite length_lastn; lia).
-    split; [|split].
+    assert (U : unmdc (iv ++ lastn 2 iv ++ data ++ [211; 20] ++ h) = iv ++ lastn 2 iv ++ data).
+    { unfold unmdc.
+      replace (iv ++ lastn 2 iv ++ data ++ [211; 20] ++ h) with ((iv ++ lastn 2 iv ++ data) ++ ([211; 20] ++ h))
+        by (repeat rewrite <- app_assoc; reflexivity).
+      apply firstn_app_exact. rewrite (app_length (iv ++ lastn 2 iv ++ data)). cbn [app length]. rewrite Lh. lia. }
+    split; [|split; [exact U|rewrite U; split]].
     - unfold gate_mdc.
       replace (iv ++ lastn 2 iv ++ data ++ [211; 20] ++ h) with (hs ++ h)
         by (unfold hs; repeat rewrite <- app_assoc; reflexivity).
@@ -187,21 +195,44 @@ Section Seipd.
       apply lastn_app_exact. cbn [app length]. rewrite Lh. reflexivity.
     - unfold gate_quick. rewrite firstn_app_exact, skipn_app_exact by reflexivity.
       rewrite firstn_app_exact by exact L2. reflexivity.
-    - rewrite skipn_app_exact by reflexivity. rewrite skipn_app_exact by exact L2.
-      rewrite mdc_bytes_20 by apply sha1_len. reflexivity.
+    - rewrite skipn_app_exact by reflexivity. rewrite skipn_app_exact by exact L2. reflexivity.
+  Qed.
+
+  (* after the quick check nothing of an accepted text is prefix: it is empty or longer than block + 2 (+ MDC) *)
+  Lemma gate_quick_lengths bs body : (2 <= bs)%nat -> gate_quick bs body -> body = [] \/ (bs + 2 <= length body)%nat.
+  Proof.
+    intros Hb G. unfold gate_quick in G.
+    destruct (Nat.le_gt_cases (bs + 2) (length body)) as [L|L]; [right; exact L|left].
+    assert (L1 : length (lastn 2 (firstn bs body)) = Nat.min 2 (Nat.min bs (length body))) by (rewrite length_lastn, firstn_length; reflexivity).
+    assert (L2 : length (firstn 2 (skipn bs body)) = Nat.min 2 (length body - bs)) by (rewrite firstn_length, skipn_length; reflexivity).
+    rewrite G in L1. rewrite L1 in L2.
+    destruct body as [|x body]; [reflexivity|]. cbn [length] in *. lia.
   Qed.
 
   Theorem seipd_roundtrip alg key iv data c :
     length iv = block_octets alg -> (2 <= block_octets alg)%nat ->
     seipd_encrypt sha1 cfb_enc alg key iv data = Ok c ->
-    seipd_decrypt sha1 cfb_dec alg key c = Ok (data ++ mdc_bytes (sha1 (iv ++ lastn 2 iv ++ data ++ [211; 20]))).
+    seipd_decrypt sha1 cfb_dec alg key c = Ok data.
   Proof.
     intros Hl Hb E. unfold seipd_encrypt in E.
     destruct (cfb_enc alg key (seipd_plain sha1 iv data)) as [c'|] eqn:EC; cbn in E; [|discriminate].
     injection E as ->. apply cfb_dec_enc in EC.
     apply seipd_accept_iff. exists (seipd_plain sha1 iv data).
-    destruct (gates_of_plain iv data ltac:(lia)) as [G1 [G2 G3]].
+    destruct (gates_of_plain iv data ltac:(lia)) as [G1 [_ [G2 G3]]].
     rewrite <- Hl. split; [exact EC|]. split; [exact G1|]. split; [exact G2|]. symmetry. exact G3.
+  Qed.
+
+  (* an accepted ciphertext is an MDC packet alone (empty text, no prefix) or at least block + 2 + 22 octets long *)
+  Lemma seipd_accept_lengths alg key ct p : (2 <= block_octets alg)%nat ->
+    seipd_decrypt sha1 cfb_dec alg key ct = Ok p ->
+    (length ct = 22%nat /\ p = []) \/ (block_octets alg + 2 + 22 <= length ct)%nat.
+  Proof.
+    intros Hb E. apply seipd_accept_iff in E as [pt [D [G1 [G2 ->]]]].
+    pose proof (gate_mdc_length pt G1) as L22. pose proof (cfb_len _ _ _ _ D) as Lc.
+    assert (Lu : length (unmdc pt) = (length pt - 22)%nat) by (unfold unmdc; rewrite firstn_length; lia).
+    destruct (gate_quick_lengths _ _ Hb G2) as [E0|Lg].
+    - left. rewrite E0 in Lu. cbn [length] in Lu. split; [lia|]. rewrite E0. rewrite skipn_nil. reflexivity.
+    - right. lia.
   Qed.
 End Seipd.
 
